@@ -395,8 +395,26 @@ class Goebner:
                         terms=[SymbolicTerm(LOC, clingo.Number(1))]
                     )  # nocoverage # not able to produce with parsing
                 newterms = list(newelem.terms)
+                newcondition = list(newelem.condition)
+                if collector.function == AggregateFunction.SumPlus and not (
+                    newterms[0].ast_type == ASTType.SymbolicTerm
+                    and newterms[0].symbol.type == clingo.SymbolType.Number
+                    and newterms[0].symbol.number > 0
+                ):
+                    # only positive weights are summed up, the factor may change the sign
+                    newcondition.append(
+                        Literal(
+                            LOC,
+                            Sign.NoSign,
+                            Comparison(
+                                newterms[0], [Guard(ComparisonOperator.GreaterThan, SymbolicTerm(LOC, clingo.Number(0)))]
+                            ),
+                        )
+                    )
                 newterms[0] = BinaryOperation(LOC, BinaryOperator.Multiplication, newterms[0], factor)
-                newelements.append(newelem.update(terms=newterms))
+                newelements.append(newelem.update(terms=newterms, condition=newcondition))
+            if collector.function == AggregateFunction.SumPlus:
+                return collector.update(elements=newelements, function=AggregateFunction.Sum)
             return collector.update(elements=newelements)
 
         collector = asts[0]
